@@ -17,11 +17,13 @@ from .c05 import enum_hook
 
 DTB = "_data_type_builder.DataTypeBuilder"
 COMPOSITES = ("StructureType", "UnionType", "DelimitedType", "ServiceType")
+ATTRIBUTES = ("Field", "PaddingField", "Constant")
 
 
 class BuilderRun:
     def __init__(self) -> None:
         self.ctor_log: List[Tuple[str, Dict[str, Any]]] = []
+        self.attr_log: List[Tuple[str, Dict[str, Any]]] = []
         self.validity_calls: List[Tuple[str, Tuple[Any, ...]]] = []
         self.result: Any = None
         self.raised: Optional[str] = None
@@ -60,6 +62,13 @@ def _hook(ctx: Ctx, run: BuilderRun, mod: Any, valid_subject: bool, valid_servic
                 k = None
             if k is None and isinstance(e.func, ast.Name) and e.func.id in f.env and isinstance(f.env[e.func.id], ClassInfo):
                 k = f.env[e.func.id]
+            if isinstance(k, ClassInfo) and k.name in ATTRIBUTES:
+                bound = _bind(ctx, k, [f.fold(a) for a in e.args], {x.arg: f.fold(x.value) for x in e.keywords if x.arg})
+                a_ = Sym(_isa_=isa_of(ctx, "_serializable._attribute." + k.name), _kind_=k.name, **bound)
+                if not hasattr(a_, "name"):
+                    a_.name = ""
+                run.attr_log.append((k.name, dict(bound)))
+                return a_
             if isinstance(k, ClassInfo) and k.name in COMPOSITES:
                 bound = _bind(ctx, k, [f.fold(a) for a in e.args], {x.arg: f.fold(x.value) for x in e.keywords if x.arg})
                 run.ctor_log.append((k.name, dict(bound)))
